@@ -690,6 +690,7 @@ PF_FAULTS = {
     'pf:drop-duct': 'malformed-power', 'pf:drop-cool': 'malformed-power',
     'pf:gap': 'malformed-power', 'pf:overlap': 'malformed-power',
     'pf:gap-duct-only': 'malformed-power',
+    'pf:cool-one-cell': 'malformed-power', 'pf:duct-one-cell': 'malformed-power',
     'pf:upper-short': 'malformed-power', 'pf:upper-long': 'malformed-power',
     'pf:lower-nonzero': 'malformed-power',
     'pf:inverted-cell': 'malformed-power',
@@ -822,6 +823,22 @@ def apply_pf(files, fault):
         for r in rows:
             if float(r[2]) == zs[1] and (f != 'gap-duct-only' or r[1] == '2'):
                 r[2] = repr(zs[1] + d)
+    elif f in ('cool-one-cell', 'duct-one-cell'):
+        # the coolant (duct) rows of the first assembly cover the whole height in ONE axial region while its pins
+        # keep theirs: the components do not share their axial boundaries (and not even their number)
+        if len(zs) < 3:
+            return False
+        comp = 3 if f == 'cool-one-cell' else 2
+        keep = []
+        for r in rows:
+            if is_(r, comp):
+                if float(r[2]) != zs[0]:
+                    continue
+                r[3] = repr(zs[-1])
+            keep.append(r)
+        if len(keep) == len(rows):
+            return False
+        rows = keep
     elif f in ('upper-short', 'upper-long'):
         d = (zs[-1] - zs[-2]) * (-0.25 if f == 'upper-short' else 0.25)
         for r in rows:
